@@ -14,7 +14,7 @@ DEFAULT_MACROS = [("log", "info"), ("log", "warn"), ("log", "error")]
 
 _KV_SHAPES = ["ident", "field", "uint", "float", "bool", "str", "str_semi", "str_comma", "str_escq", "str_eq",
               "mod_q", "mod_debug", "mod_pct", "mod_display", "mod_err", "mod_sval", "mod_serde",
-              "short", "short_q", "short_pct", "char_eq", "char_escq", "char_nl", "str_after_op", "str_in_call"]
+              "short", "short_q", "short_pct", "char_eq", "char_escq", "char_nl", "str_after_op", "str_in_call", "cmp_lt", "cmp_gt", "shift", "mod_spaced"]
 FEATURES = {
     "path": ["bare", "qual"],
     "macro": [0, 1, 2, 3, 4],          # index into the configured macro set (modulo its length)
@@ -72,6 +72,11 @@ def kv_text(shape, key, rnd):
         # a string literal that is not the first token of the value, directly followed by the separator
         "str_after_op": '%s = %s == "%s"' % (key, rnd.choice(IDENTS[:4]), rnd.choice(["s", "a,b", "x;y", ""])),
         "str_in_call": '%s = %s.get("%s")' % (key, rnd.choice(IDENTS[:4]), rnd.choice(["key", "a b"])),
+        # comparison and shift operators (not brackets), and layout between the colon and the capture modifier
+        "cmp_lt": "%s = %s %s %s" % (key, rnd.choice(IDENTS[:4]), rnd.choice(["<", "<=", "<<"]), rnd.choice(["min", "10", "limit"])),
+        "cmp_gt": "%s = %s %s %s" % (key, rnd.choice(IDENTS[:4]), rnd.choice([">", ">=", ">>"]), rnd.choice(["max", "3", "limit"])),
+        "shift": "%s = 1 << %s" % (key, rnd.choice(["4", "n"])),
+        "mod_spaced": "%s%s%s = %s" % (key, rnd.choice([": ", " : ", ":\t", ": /* how */ "]), rnd.choice(["?", "debug", "%", "display"]), rnd.choice(IDENTS[:4])),
         "short": "%s" % key,
         "short_q": "%s:?" % key,
         "short_pct": "%s:%%" % key,
@@ -137,6 +142,8 @@ def build_stmt(feat, marker, rnd, macros=None, eol="\n", ref_id=None, kv_ref=Non
     mod, name = rnd.choice(macros) if "macro" not in feat else macros[feat["macro"] % len(macros)]
     path = name if feat["path"] == "bare" else "%s::%s" % (mod, name)
     L = lambda: lay(feat["lay"], rnd, eol)
+    # in the tight layout a separator may be followed directly by the next argument (`target: "t","m"`, `a = 1,b = 2;"m"`)
+    SP = "" if (feat["lay"] == "tight" and rnd.random() < 0.3) else " "
     parts = []   # (tag, text)
     bang = feat.get("bang", "tight") if core.SPACED_BANG else "tight"
     parts.append(("path", path))
@@ -150,7 +157,7 @@ def build_stmt(feat, marker, rnd, macros=None, eol="\n", ref_id=None, kv_ref=Non
         t = {"plain": "app", "spacey": "my app target", "colons": "app::db::pool", "punct": "a-b.c_d,e;f(g)",
              "slashes": "http://svc", "blockopen": "glob/*", "escq": 'a\\"b', "trail_backslash": "dir\\\\"}[tgt]
         parts.append(("target", 'target:%s"%s"%s,' % (" " if feat["lay"] != "tight" else " ", t, L())))
-        parts.append(("lay", L() or " "))
+        parts.append(("lay", L() or SP))
     parts.append(("after_target", ""))
     kvs = []
     nkv = feat["nkv"]
@@ -174,10 +181,10 @@ def build_stmt(feat, marker, rnd, macros=None, eol="\n", ref_id=None, kv_ref=Non
             if i < len(kvs) - 1:
                 parts.append(("lay", L()))
                 parts.append(("sep", ","))
-                parts.append(("lay", L() or " "))
+                parts.append(("lay", L() or SP))
         parts.append(("lay", L()))
         parts.append(("sep", ";"))
-        parts.append(("lay", L() or " "))
+        parts.append(("lay", L() or SP))
     body = msg_text(feat["msg"], marker, rnd)
     pref = ""
     ref_msg = None
@@ -290,7 +297,8 @@ DECOY_CLASSES = ["line_comment", "block_comment", "doc_comment", "inner_doc", "b
                  "unicode_prefix_name", "unicode_suffix_name", "unicode_module_path", "block_multi_paragraph",
                  # paths that share segments with a configured multi-segment module; comments after lifetimes / loop labels
                  "module_trailing_segments", "module_leading_segments", "line_comment_after_lifetime", "block_comment_after_label",
-                 "no_literal_kv_only", "no_literal_format_args"]
+                 "no_literal_kv_only", "no_literal_format_args",
+                 "line_comment_with_quoted_word_after_string", "block_comment_with_quoted_word_after_string", "line_comment_glued_to_colon"]
 
 
 def decoy_text(cls, marker, rnd, macros, eol):
@@ -342,6 +350,9 @@ def decoy_text(cls, marker, rnd, macros, eol):
         "block_comment_after_label": '\'outer: loop { break \'outer; } /* don\'t call %s::%s!("%s in a block comment after a loop label") */' % (mod, name, marker),
         "no_literal_kv_only": '%s!(count = n_%s);' % (name, marker.lower()),
         "no_literal_format_args": '%s!(target: "net", code = code; format_args!("%s {}", 1));' % (name, marker),
+        "line_comment_with_quoted_word_after_string": 'let m = "fast"; // the "slow" mode lost its %s!("%s quoted word earlier in the comment") line' % (name, marker),
+        "block_comment_with_quoted_word_after_string": 'let m = "a/b"; /* see "docs" - %s::%s!("%s in a block comment after a string") */' % (mod, name, marker),
+        "line_comment_glued_to_colon": 'let level:// chosen below: %s!("%s comment glued to a colon")' % (name, marker),
         "unicode_prefix_name": '%s%s!("%s non-ASCII letters before the name");' % (rnd.choice(["журнал", "µ", "é", "日本", "ß", "_ü"]), name, marker),
         "unicode_suffix_name": '%s%s!("%s non-ASCII letters after the name");' % (name, rnd.choice(["é", "ж", "_µ", "日"]), marker),
         "unicode_module_path": '%s::%s!("%s module path ending in a non-ASCII letter");' % (rnd.choice(["журнал", "modé", mod + "é", "crate::ü"]), name, marker),
